@@ -79,3 +79,12 @@ if __name__=="__main__":
         out+=core("C10Final.lean","final_class_fixed_vram","class_fixed_vram_core","`final_class_fixed_vram` for any writer context.")
         out+="end Slinky.C10\n"
         open(L+"C10Core.lean","w").write(out)
+    elif which=="C10End":
+        # Props/C10EndCore.lean (the partial-mode wrapper `final_class_end_partial` was appended by hand)
+        t=core("C10End.lean","final_class_end","class_end_core","`final_class_end` for any writer context and any statements behind the segments.")
+        t=t.replace("endAssigns o c","endAssigns cx.o c")
+        open(L+"C10EndCore.lean","w").write("import Props.C10End\nimport Props.C10Partial\nnamespace Slinky.C10\nopen Slinky W Ld\n\n"+t+"\nend Slinky.C10\n")
+    elif which=="C10Symbol":
+        # Props/C10SymbolCore.lean (the wrapper `final_class_fixed_symbol_partial` was appended by hand)
+        t=core("C10Symbol.lean","final_class_fixed_symbol","class_fixed_symbol_core","`final_class_fixed_symbol` for any writer context and any statements behind the segments.")
+        open(L+"C10SymbolCore.lean","w").write("import Props.C10Symbol\nimport Props.C10Partial\nnamespace Slinky.C10\nopen Slinky W Ld\n\n"+t+"\nend Slinky.C10\n")
